@@ -549,6 +549,10 @@ def execStmt (w : World τ) (a : ActId) (fs : List (Frame τ)) : Stmt τ → Wor
     match w.buildCond c with
     | some (w, cid) => (w.emit a "abegin" desc).doCondAwait a (.awaitMark cid :: fs) cid
     | none => w.raiseNew a fs .notImplemented
+  | .defCond n c =>
+    (match w.buildCond c with
+     | some (w, cid) => ({ w with condNames := (n, cid) :: w.condNames.filter (·.1 != n) }).retTo a fs .unit
+     | none => w.raiseNew a fs .notImplemented)
   | .logCond c =>
     match w.buildCond c with
     | some (w, cid) => (w.emit a "alg" [if w.eval cid then 1 else 0, if w.evalSpec c then 1 else 0]).retTo a fs .unit
